@@ -1,14 +1,872 @@
-//! C09 — stub, to be implemented.
+//! C09 — the main process's verdict to a client matches what the workers did.
+//!
+//! Engine: hubsim (the real `CommandHub::run()` with scripted workers and scripted CLI clients).
+//! The oracle is a history check over what the scripted peers *observed* (every event carries a
+//! global sequence number): per client request exactly one final answer; OK only if every worker
+//! that received the request acknowledged it with OK before the verdict was read; FAILURE expected
+//! as soon as one worker failed, died or stayed silent; bounded answer time; no answer that needed
+//! a timer although every worker had answered; echoed content belongs to the asking client.
 #![allow(dead_code)]
+use std::collections::BTreeMap;
+
+use serde::{Deserialize, Serialize};
 use serde_json::Value;
+use sozu_command_lib::proto::command::{
+    request::RequestType, response_content::ContentType, AddBackend, Cluster, CountRequests, FrontendFilters, HardStop, HttpListenerConfig,
+    ListListeners, ListWorkers, PathRule, QueryCertificatesFilters, QueryClusterByDomain, QueryClustersHashes, QueryMetricsOptions, Request,
+    RequestHttpFrontend, ResponseStatus, RunState, SocketAddress, SoftStop, Status, UpdateHttpListenerConfig, WorkerRequest,
+};
+
+use crate::actors::Quantum;
 use crate::framework::*;
+use crate::hubsim::*;
+use crate::netsim;
+use crate::prng::{Prng, TraceHash};
+use crate::world::{SchedCfg, Stats, World, MS, SEC};
 
 pub struct C09;
 
+// ------------------------------------------------------------------------------------ plan
+
+#[derive(Clone, Debug, Serialize, Deserialize, PartialEq)]
+pub enum Verb {
+    AddCluster,
+    AddBackend,
+    AddHttpFrontend,
+    AddHttpListener,
+    /// listener patch on the listener added by the request with tag number `listener`
+    UpdateHttpListener { listener: u32 },
+    /// RemoveCluster of a cluster nobody added: rejected by the main process itself
+    RemoveUnknownCluster,
+    QueryClusterById,
+    QueryClustersByDomain,
+    QueryClustersHashes,
+    QueryCertificatesFromWorkers,
+    QueryMetrics { workers: bool },
+    Status,
+    ListWorkers,
+    ListFrontends,
+    ListListeners,
+    CountRequests,
+    SaveState,
+    LoadState { entries: u32 },
+    LoadStateMissing,
+    /// first phase of a worker upgrade (ReturnListenSockets to one worker)
+    UpgradeWorker { worker: u32 },
+    UpgradeUnknownWorker,
+    SoftStop,
+    HardStop,
+}
+
+#[derive(Clone, Debug, Serialize, Deserialize, PartialEq)]
+pub struct ReqPlan {
+    /// tag number: makes the request content unique (`tagNNNq`)
+    pub n: u32,
+    pub verb: Verb,
+    /// behaviour of each worker for this request
+    pub beh: Vec<Beh>,
+}
+
+#[derive(Clone, Debug, Serialize, Deserialize, PartialEq)]
+pub struct ClientPlan {
+    pub start_ns: u64,
+    pub think_ns: u64,
+    pub wq: Quantum,
+    /// sends all its requests without waiting for answers
+    pub pipelined: bool,
+    /// a stop verb is sent only after every other client is done
+    pub stop_waits: bool,
+    pub requests: Vec<ReqPlan>,
+}
+
+#[derive(Clone, Debug, Serialize, Deserialize)]
+pub struct HubPlan {
+    pub seed: u64,
+    pub family: String,
+    pub knobs: HubKnobs,
+    pub sched: SchedCfg,
+    /// write quantum of each scripted worker
+    pub workers: Vec<Quantum>,
+    pub clients: Vec<ClientPlan>,
+}
+
+impl Verb {
+    /// plan-level family used in violation keys
+    pub fn family(&self) -> &'static str {
+        match self {
+            Verb::AddCluster | Verb::AddBackend | Verb::AddHttpFrontend | Verb::AddHttpListener | Verb::UpdateHttpListener { .. } => "mutating",
+            Verb::RemoveUnknownCluster => "rejected_by_main",
+            Verb::QueryClusterById | Verb::QueryClustersByDomain | Verb::QueryClustersHashes | Verb::QueryCertificatesFromWorkers => "query_clusters",
+            Verb::QueryMetrics { .. } => "QueryMetrics",
+            Verb::Status => "Status",
+            Verb::ListWorkers | Verb::ListFrontends | Verb::ListListeners | Verb::CountRequests | Verb::SaveState => "local",
+            Verb::LoadState { .. } => "LoadState",
+            Verb::LoadStateMissing => "rejected_by_main",
+            Verb::UpgradeWorker { .. } => "UpgradeWorker",
+            Verb::UpgradeUnknownWorker => "rejected_by_main",
+            Verb::SoftStop => "SoftStop",
+            Verb::HardStop => "HardStop",
+        }
+    }
+    pub fn name(&self) -> String {
+        let d = format!("{self:?}");
+        d.chars().take_while(|c| c.is_ascii_alphanumeric()).collect()
+    }
+    /// name of the request as the workers see it, for verbs whose content cannot carry a tag
+    fn tagless_worker_verb(&self) -> Option<&'static str> {
+        match self {
+            Verb::Status => Some("Status"),
+            Verb::QueryClustersHashes => Some("QueryClustersHashes"),
+            Verb::SoftStop => Some("SoftStop"),
+            Verb::HardStop => Some("HardStop"),
+            Verb::UpgradeWorker { .. } => Some("ReturnListenSockets"),
+            _ => None,
+        }
+    }
+    fn is_stop(&self) -> bool { matches!(self, Verb::SoftStop | Verb::HardStop) }
+    fn scattered(&self) -> bool { !matches!(self.family(), "local" | "rejected_by_main") }
+    fn expected_requests_per_worker(&self) -> usize { match self { Verb::LoadState { entries } => *entries as usize, _ => 1 } }
+}
+
+fn effective_family(c: &ClientPlan, ri: usize) -> &'static str {
+    let r = &c.requests[ri];
+    if let Verb::UpdateHttpListener { listener } = r.verb {
+        // the patch needs its listener in the main process state
+        if !c.requests[..ri].iter().any(|q| q.n == listener && q.verb == Verb::AddHttpListener) { return "rejected_by_main"; }
+    }
+    r.verb.family()
+}
+
+fn build_request(r: &ReqPlan, dir: &std::path::Path) -> Request {
+    let tag = tag_str(r.n);
+    let rt = match &r.verb {
+        Verb::AddCluster => RequestType::AddCluster(Cluster { cluster_id: tag, ..Default::default() }),
+        Verb::AddBackend => RequestType::AddBackend(AddBackend { cluster_id: "shared".into(), backend_id: tag, address: SocketAddress::new_v4(10, 0, 0, 1, 1000 + r.n as u16), ..Default::default() }),
+        Verb::AddHttpFrontend => RequestType::AddHttpFrontend(RequestHttpFrontend {
+            cluster_id: Some("shared".into()), address: SocketAddress::new_v4(0, 0, 0, 0, 8080), hostname: format!("{tag}.test"), path: PathRule::prefix("/"), ..Default::default()
+        }),
+        Verb::AddHttpListener => RequestType::AddHttpListener(HttpListenerConfig { address: SocketAddress::new_v4(127, 0, 0, 1, 20000 + r.n as u16), sticky_name: tag, ..Default::default() }),
+        Verb::UpdateHttpListener { listener } => RequestType::UpdateHttpListener(UpdateHttpListenerConfig {
+            address: SocketAddress::new_v4(127, 0, 0, 1, 20000 + *listener as u16), sticky_name: Some(tag), front_timeout: Some(30), ..Default::default()
+        }),
+        Verb::RemoveUnknownCluster => RequestType::RemoveCluster(format!("ghost-{tag}")),
+        Verb::QueryClusterById => RequestType::QueryClusterById(tag),
+        Verb::QueryClustersByDomain => RequestType::QueryClustersByDomain(QueryClusterByDomain { hostname: format!("{tag}.test"), path: None }),
+        Verb::QueryClustersHashes => RequestType::QueryClustersHashes(QueryClustersHashes {}),
+        Verb::QueryCertificatesFromWorkers => RequestType::QueryCertificatesFromWorkers(QueryCertificatesFilters { domain: Some(format!("{tag}.test")), fingerprint: None }),
+        Verb::QueryMetrics { workers } => RequestType::QueryMetrics(QueryMetricsOptions { list: false, cluster_ids: vec![tag], backend_ids: vec![], metric_names: vec![], no_clusters: false, workers: *workers }),
+        Verb::Status => RequestType::Status(Status {}),
+        Verb::ListWorkers => RequestType::ListWorkers(ListWorkers {}),
+        Verb::ListFrontends => RequestType::ListFrontends(FrontendFilters { http: true, https: true, tcp: true, domain: None }),
+        Verb::ListListeners => RequestType::ListListeners(ListListeners {}),
+        Verb::CountRequests => RequestType::CountRequests(CountRequests {}),
+        Verb::SaveState => RequestType::SaveState(dir.join(format!("save-{tag}.json")).to_string_lossy().to_string()),
+        Verb::LoadState { .. } => RequestType::LoadState(dir.join(format!("load-{tag}.json")).to_string_lossy().to_string()),
+        Verb::LoadStateMissing => RequestType::LoadState(dir.join(format!("missing-{tag}.json")).to_string_lossy().to_string()),
+        Verb::UpgradeWorker { worker } => RequestType::UpgradeWorker(*worker),
+        Verb::UpgradeUnknownWorker => RequestType::UpgradeWorker(77),
+        Verb::SoftStop => RequestType::SoftStop(SoftStop {}),
+        Verb::HardStop => RequestType::HardStop(HardStop {}),
+    };
+    Request { request_type: Some(rt) }
+}
+
+fn write_state_file(r: &ReqPlan, dir: &std::path::Path) {
+    if let Verb::LoadState { entries } = r.verb {
+        let mut out = Vec::new();
+        for k in 0..entries {
+            let req = WorkerRequest { id: format!("SAVE-{k}"), content: Request { request_type: Some(RequestType::AddCluster(Cluster { cluster_id: format!("{}-e{k}", tag_str(r.n)), ..Default::default() })) } };
+            out.extend_from_slice(serde_json::to_string(&req).unwrap().as_bytes());
+            out.extend_from_slice(b"\n\0");
+        }
+        let _ = std::fs::write(dir.join(format!("load-{}.json", tag_str(r.n))), out);
+    }
+}
+
+fn needs_files(p: &HubPlan) -> bool {
+    p.clients.iter().flat_map(|c| c.requests.iter()).any(|r| matches!(r.verb, Verb::SaveState | Verb::LoadState { .. } | Verb::LoadStateMissing))
+}
+
+// ------------------------------------------------------------------------------------ generation
+
+fn random_beh(rng: &mut Prng, kinds: &[u8], timeout_ns: u64) -> Beh {
+    match *rng.pick(kinds) {
+        0 => Beh::Failure,
+        1 => Beh::ProcessingOk(*rng.pick(&[0, MS, SEC])),
+        2 => Beh::SlowOk(*rng.pick(&[MS, SEC, timeout_ns / 2, timeout_ns - SEC])),
+        3 => Beh::Silent,
+        4 => Beh::Late(timeout_ns + *rng.pick(&[500 * MS, SEC, 3 * SEC])),
+        5 => Beh::CloseBefore,
+        6 => Beh::CloseAfter(*rng.pick(&[0, MS, SEC])),
+        7 => Beh::DupOk(*rng.pick(&[0, MS])),
+        8 => Beh::UnknownThenOk,
+        _ => Beh::Stall,
+    }
+}
+
+pub fn generate(seed: u64, _tier: Tier) -> HubPlan {
+    let mut rng = Prng::derive(seed, "c09/plan");
+    let n_workers = *rng.pick(&[1usize, 1, 2, 2, 2, 3, 4]);
+    let n_clients = *rng.pick(&[1usize, 1, 1, 2, 2, 3, 4]);
+    let mut knobs = HubKnobs::default();
+    knobs.worker_timeout = *rng.pick(&[2u32, 5, 10, 10, 30]);
+    let timeout_ns = knobs.worker_timeout as u64 * SEC;
+    if rng.below(3) == 0 {
+        knobs.command_buffer_size = *rng.pick(&[1024u64, 4096]);
+        knobs.max_command_buffer_size = *rng.pick(&[8192u64, 16384]);
+        knobs.worker_sndbuf = Some(*rng.pick(&[4608, 16384]));
+    }
+    // swarm: which fault kinds and which verb families this plan may use
+    let fault_pm = *rng.pick(&[0u64, 0, 150, 400, 700]);
+    let mut kinds: Vec<u8> = (0..10u8).filter(|_| rng.below(3) == 0).collect();
+    if kinds.is_empty() { kinds.push(rng.below(10) as u8); }
+    let families: Vec<u8> = { let mut f: Vec<u8> = (0..8u8).filter(|_| rng.below(2) == 0).collect(); if f.is_empty() { f.push(0); } f };
+    let pipelined_plan = rng.below(40) == 0;
+    let with_stop = rng.below(5) == 0;
+    let mut next_n = 1u32;
+    let mut used_tagless: Vec<&'static str> = Vec::new();
+    let mut clients = Vec::new();
+    for _ in 0..n_clients {
+        let k = 1 + rng.below(4) as usize;
+        let mut requests: Vec<ReqPlan> = Vec::new();
+        while requests.len() < k {
+            let n = next_n; next_n += 1;
+            let verb = match *rng.pick(&families) {
+                0 => rng.pick(&[Verb::AddCluster, Verb::AddBackend, Verb::AddHttpFrontend]).clone(),
+                1 => {
+                    // listener + patch (two requests)
+                    let add = ReqPlan { n, verb: Verb::AddHttpListener, beh: vec![] };
+                    requests.push(add);
+                    let n2 = next_n; next_n += 1;
+                    requests.push(ReqPlan { n: n2, verb: Verb::UpdateHttpListener { listener: n }, beh: vec![] });
+                    continue;
+                }
+                2 => rng.pick(&[Verb::QueryClusterById, Verb::QueryClustersByDomain, Verb::QueryClustersHashes, Verb::QueryCertificatesFromWorkers]).clone(),
+                3 => Verb::QueryMetrics { workers: rng.below(2) == 0 },
+                4 => Verb::Status,
+                5 => rng.pick(&[Verb::ListWorkers, Verb::ListFrontends, Verb::ListListeners, Verb::CountRequests, Verb::SaveState, Verb::RemoveUnknownCluster, Verb::LoadStateMissing, Verb::UpgradeUnknownWorker]).clone(),
+                6 => Verb::LoadState { entries: if knobs.max_command_buffer_size <= 16384 && rng.below(4) == 0 { 400 } else { *rng.pick(&[1u32, 2, 3, 8, 40, 150]) } },
+                _ => Verb::UpgradeWorker { worker: rng.below(n_workers as u64) as u32 },
+            };
+            if let Some(t) = verb.tagless_worker_verb() {
+                if used_tagless.contains(&t) { next_n -= 1; if families.iter().all(|f| matches!(f, 4 | 7)) { requests.push(ReqPlan { n: { let m = next_n; next_n += 1; m }, verb: Verb::AddCluster, beh: vec![] }); } continue; }
+                used_tagless.push(t);
+            }
+            requests.push(ReqPlan { n, verb, beh: vec![] });
+        }
+        clients.push(ClientPlan {
+            start_ns: rng.below(2) * rng.below(5 * MS),
+            think_ns: *rng.pick(&[0, 0, MS, SEC]),
+            wq: if rng.below(3) == 0 { Quantum::random(&mut rng) } else { Quantum::All },
+            pipelined: pipelined_plan && k > 1,
+            stop_waits: rng.below(2) == 0,
+            requests,
+        });
+    }
+    if with_stop {
+        let ci = rng.below(n_clients as u64) as usize;
+        let n = next_n; next_n += 1;
+        let verb = if rng.below(2) == 0 { Verb::SoftStop } else { Verb::HardStop };
+        clients[ci].requests.push(ReqPlan { n, verb, beh: vec![] });
+        clients[ci].pipelined = false;
+    }
+    let _ = next_n;
+    // behaviours
+    for c in clients.iter_mut() {
+        for r in c.requests.iter_mut() {
+            r.beh = (0..n_workers).map(|_| if rng.below(1000) < fault_pm { random_beh(&mut rng, &kinds, timeout_ns) } else { Beh::Ok }).collect();
+            if let Verb::UpgradeWorker { worker } = r.verb {
+                // an OK from the old worker would make the real master fork and exec a new worker
+                let b = &mut r.beh[worker as usize];
+                if b.acks() || matches!(b, Beh::Late(_)) { *b = rng.pick(&[Beh::Failure, Beh::Silent, Beh::CloseBefore]).clone(); }
+            }
+        }
+    }
+    let any_fault = clients.iter().flat_map(|c| c.requests.iter()).any(|r| r.beh.iter().any(|b| *b != Beh::Ok));
+    let mut sched = netsim::default_sched(&mut rng, false);
+    sched.preempt_pm = 0;
+    HubPlan {
+        seed,
+        family: format!("{}{}{}", if any_fault { "faults" } else { "plain" }, if with_stop { "+stop" } else { "" }, if pipelined_plan { "+pipelined" } else { "" }),
+        knobs,
+        sched,
+        workers: (0..n_workers).map(|_| if rng.below(3) == 0 { Quantum::random(&mut rng) } else { Quantum::All }).collect(),
+        clients,
+    }
+}
+
+/// Systematic part: every verb family x every behaviour, one client, one request, 1 and 2 workers
+/// (the fault hits worker 0; a second worker answers OK).
+fn enumerate_plans() -> Vec<HubPlan> {
+    let verbs = [
+        Verb::AddCluster, Verb::AddBackend, Verb::QueryClusterById, Verb::QueryClustersHashes, Verb::QueryMetrics { workers: true }, Verb::Status,
+        Verb::LoadState { entries: 3 }, Verb::SoftStop, Verb::HardStop, Verb::UpgradeWorker { worker: 0 }, Verb::ListWorkers, Verb::SaveState,
+    ];
+    let t = 10 * SEC;
+    let behs = [
+        Beh::Ok, Beh::Failure, Beh::ProcessingOk(MS), Beh::SlowOk(3 * SEC), Beh::Silent, Beh::Late(t + SEC), Beh::CloseBefore, Beh::CloseAfter(MS),
+        Beh::DupOk(MS), Beh::UnknownThenOk, Beh::Stall,
+    ];
+    let mut out = Vec::new();
+    for v in verbs.iter() {
+        for b in behs.iter() {
+            for nw in 1..=2usize {
+                if matches!(v, Verb::UpgradeWorker { .. }) && (b.acks() || matches!(b, Beh::Late(_))) { continue; }
+                if !v.scattered() && (*b != Beh::Ok || nw == 2) { continue; }
+                let mut beh = vec![b.clone()];
+                if nw == 2 { beh.push(Beh::Ok); }
+                out.push(HubPlan {
+                    seed: 0,
+                    family: "enumerated".into(),
+                    knobs: HubKnobs::default(),
+                    sched: SchedCfg::default(),
+                    workers: vec![Quantum::All; nw],
+                    clients: vec![ClientPlan { start_ns: 0, think_ns: 0, wq: Quantum::All, pipelined: false, stop_waits: false, requests: vec![ReqPlan { n: 1, verb: v.clone(), beh }] }],
+                });
+            }
+        }
+    }
+    // duplicate answer from one worker hiding another worker's failure / silence
+    for other in [Beh::Failure, Beh::Silent, Beh::SlowOk(3 * SEC)] {
+        out.push(HubPlan {
+            seed: 0, family: "enumerated".into(), knobs: HubKnobs::default(), sched: SchedCfg::default(), workers: vec![Quantum::All; 2],
+            clients: vec![ClientPlan { start_ns: 0, think_ns: 0, wq: Quantum::All, pipelined: false, stop_waits: false, requests: vec![ReqPlan { n: 1, verb: Verb::AddCluster, beh: vec![Beh::DupOk(0), other] }] }],
+        });
+    }
+    // two concurrent silent requests whose deadlines differ
+    out.push(HubPlan {
+        seed: 0, family: "enumerated".into(), knobs: HubKnobs::default(), sched: SchedCfg::default(), workers: vec![Quantum::All; 1],
+        clients: vec![
+            ClientPlan { start_ns: 0, think_ns: 0, wq: Quantum::All, pipelined: false, stop_waits: false, requests: vec![ReqPlan { n: 1, verb: Verb::AddCluster, beh: vec![Beh::Silent] }] },
+            ClientPlan { start_ns: 4 * SEC, think_ns: 0, wq: Quantum::All, pipelined: false, stop_waits: false, requests: vec![ReqPlan { n: 2, verb: Verb::AddCluster, beh: vec![Beh::Silent] }] },
+        ],
+    });
+    // a state file whose requests do not fit the command channel's buffer
+    out.push(HubPlan {
+        seed: 0, family: "enumerated".into(), knobs: HubKnobs { command_buffer_size: 1024, max_command_buffer_size: 8192, ..HubKnobs::default() }, sched: SchedCfg::default(), workers: vec![Quantum::All; 1],
+        clients: vec![ClientPlan { start_ns: 0, think_ns: 0, wq: Quantum::All, pipelined: false, stop_waits: false, requests: vec![ReqPlan { n: 1, verb: Verb::LoadState { entries: 400 }, beh: vec![Beh::Ok] }] }],
+    });
+    // a client that does not wait for answers
+    out.push(HubPlan {
+        seed: 0, family: "enumerated".into(), knobs: HubKnobs::default(), sched: SchedCfg::default(), workers: vec![Quantum::All; 1],
+        clients: vec![ClientPlan { start_ns: 0, think_ns: 0, wq: Quantum::All, pipelined: true, stop_waits: false, requests: vec![ReqPlan { n: 1, verb: Verb::AddCluster, beh: vec![Beh::Ok] }, ReqPlan { n: 2, verb: Verb::AddBackend, beh: vec![Beh::Ok] }] }],
+    });
+    out
+}
+
+pub fn summarize(p: &HubPlan) -> String {
+    let mut s = format!("{} w={} timeout={}s buf={}/{} sndbuf={:?} ", p.family, p.workers.len(), p.knobs.worker_timeout, p.knobs.command_buffer_size, p.knobs.max_command_buffer_size, p.knobs.worker_sndbuf);
+    for (ci, c) in p.clients.iter().enumerate() {
+        s += &format!("[c{ci}{}:", if c.pipelined { " pipelined" } else { "" });
+        for r in &c.requests {
+            s += &format!(" {}#{}({})", r.verb.name(), r.n, r.beh.iter().map(|b| b.name()).collect::<Vec<_>>().join(","));
+        }
+        s += "] ";
+    }
+    s
+}
+
+// ------------------------------------------------------------------------------------ execution
+
+pub struct Outcome {
+    pub end: HubEnd,
+    pub clients: Vec<ClientObs>,
+    pub workers: Vec<WorkerObs>,
+    pub ctl: ControllerObs,
+    pub trace_hash: u64,
+    pub stats: Stats,
+    pub log: Vec<String>,
+    pub leaked_fds: Vec<i32>,
+}
+
+static DIRCTR: std::sync::atomic::AtomicU64 = std::sync::atomic::AtomicU64::new(0);
+
+pub fn run(p: &HubPlan, log_on: bool) -> Outcome {
+    let plan = p.clone();
+    let fds_before = netsim::open_fds();
+    let mut out = netsim::on_fresh_thread(move || {
+        let p = plan;
+        let mut world = World::new(p.seed, p.sched.clone());
+        world.log_on = log_on;
+        World::install(&mut world);
+        let dir = verif_root().join("sim/target/tmp").join(format!("c09-{}-{}", std::process::id(), DIRCTR.fetch_add(1, std::sync::atomic::Ordering::SeqCst)));
+        let files = needs_files(&p);
+        if files {
+            let _ = std::fs::create_dir_all(&dir);
+            for r in p.clients.iter().flat_map(|c| c.requests.iter()) { write_state_file(r, &dir); }
+        }
+        let timeout_ns = p.knobs.worker_timeout as u64 * SEC;
+        let patience = 3 * timeout_ns + 5 * SEC;
+        let mut client_ids = Vec::new();
+        let mut worker_ids = Vec::new();
+        let mut ctl_id = 0usize;
+        let n_workers = p.workers.len();
+        let end = run_hub(&mut world, &p.knobs, n_workers, |w, env| {
+            let seq = Seq::default();
+            // worker scripts: request -> behaviour of this worker
+            for (wi, wend) in env.workers.iter().enumerate() {
+                let mut by_tag: BTreeMap<u32, Beh> = BTreeMap::new();
+                let mut by_verb: BTreeMap<String, Beh> = BTreeMap::new();
+                for r in p.clients.iter().flat_map(|c| c.requests.iter()) {
+                    let b = r.beh.get(wi).cloned().unwrap_or(Beh::Ok);
+                    match r.verb.tagless_worker_verb() { Some(v) => { by_verb.insert(v.to_string(), b); } None => { by_tag.insert(r.n, b); } }
+                }
+                let decide: Decide = Box::new(move |req, tags, entry| {
+                    let b = match tags.first() { Some(n) => by_tag.get(n).cloned(), None => by_verb.get(&verb_name(&req.content)).cloned() }.unwrap_or(Beh::Ok);
+                    // multi-request verbs: the scripted fault hits entry 0, the rest is acknowledged
+                    if entry.map_or(false, |e| e > 0) { Beh::Ok } else { b }
+                });
+                let a = ScriptedWorker::new(wend, seq.clone(), p.workers[wi].clone(), Prng::derive(p.seed, &format!("c09/worker{wi}")), timeout_ns, decide);
+                worker_ids.push(w.add_actor(Box::new(a)));
+            }
+            let n_clients = p.clients.len();
+            let mut max_budget = 0u64;
+            for (ci, c) in p.clients.iter().enumerate() {
+                let reqs: Vec<Request> = c.requests.iter().map(|r| build_request(r, &dir)).collect();
+                let mut a = CliClient::new(ci, env, seq.clone(), Prng::derive(p.seed, &format!("c09/client{ci}")), 1000 * SEC + c.start_ns, reqs, c.think_ns, patience, c.wq.clone());
+                a.pipelined = c.pipelined && c.requests.len() > 1;
+                if c.stop_waits {
+                    for (ri, r) in c.requests.iter().enumerate() { if r.verb.is_stop() { a.gates.insert(ri, ("clients_done".into(), n_clients as i64 - 1)); } }
+                }
+                max_budget = max_budget.max(c.start_ns + c.requests.len() as u64 * (patience + c.think_ns + SEC));
+                client_ids.push(w.add_actor(Box::new(a)));
+            }
+            // a gated stop waits for the other clients: budgets add up
+            let hard_deadline = 1000 * SEC + 2 * max_budget + 10 * SEC;
+            let k = Controller::new(env, n_clients, hard_deadline, timeout_ns + 5 * SEC);
+            ctl_id = w.add_actor(Box::new(k));
+        });
+        let dir_s = dir.to_string_lossy().to_string();
+        let clients = client_ids.iter().map(|id| {
+            let mut o = world.actor::<CliClient>(*id).obs.clone();
+            // the scratch directory name is process specific: keep it out of reports
+            for r in o.reqs.iter_mut() { for x in r.responses.iter_mut() { x.message = x.message.replace(&dir_s, "$DIR"); } }
+            for x in o.stray.iter_mut() { x.message = x.message.replace(&dir_s, "$DIR"); }
+            o
+        }).collect();
+        let workers = worker_ids.iter().map(|id| world.actor::<ScriptedWorker>(*id).obs.clone()).collect();
+        let ctl = world.actor::<Controller>(ctl_id).obs.clone();
+        let out = Outcome { end, clients, workers, ctl, trace_hash: world.trace.0, stats: world.stats.clone(), log: std::mem::take(&mut world.log), leaked_fds: vec![] };
+        drop(world);
+        if files { let _ = std::fs::remove_dir_all(&dir); }
+        out
+    });
+    let fds_after = netsim::open_fds();
+    out.leaked_fds = fds_after.into_iter().filter(|f| !fds_before.contains(f)).collect();
+    out
+}
+
+// ------------------------------------------------------------------------------------ oracle
+
+#[derive(Clone, Debug, PartialEq)]
+enum WClass {
+    /// acknowledged every request of the verb with OK before the verdict (seq, time of the last ack)
+    Acked(u64, u64),
+    Failed(String),
+    Unacked(String),
+    DeadBefore { long_before: bool },
+    /// died while the request was in flight without having seen it
+    Ambiguous,
+}
+
+fn classify(r: &ReqPlan, wi: usize, wo: &WorkerObs, ro: &ReqObs, final_seq: u64, timeout_ns: u64) -> WClass {
+    let tagless = r.verb.tagless_worker_verb();
+    let recs: Vec<&WRec> = wo.recs.iter().filter(|x| x.beh != "end_ok" && match tagless { Some(v) => x.verb == v && x.tags.is_empty(), None => x.tags.contains(&r.n) }).collect();
+    let seq_send = ro.seq_send.unwrap_or(0);
+    let t_send = ro.t_send.unwrap_or(0);
+    let closed_before_final = wo.seq_closed.map_or(false, |s| s < final_seq);
+    let assigned = r.beh.get(wi).cloned().unwrap_or(Beh::Ok);
+    if recs.is_empty() {
+        if let Some(s) = wo.seq_closed { if s < seq_send { return WClass::DeadBefore { long_before: wo.t_closed.unwrap_or(0) + EPS_NS < t_send }; } }
+        // (the scripted worker learns about a SIGKILL only at its next step: the kill itself may be older)
+        if closed_before_final || wo.killed { return WClass::Ambiguous; }
+        if wo.stalled_since.is_some() { return WClass::Unacked("stalled".into()); }
+        return WClass::Unacked("not_dispatched".into());
+    }
+    if let Some(x) = recs.iter().find(|x| x.sent.iter().any(|(_, s, st)| *st == ResponseStatus::Failure as i32 && *s < final_seq)) { return WClass::Failed(x.beh.clone()); }
+    let mut last = (0u64, 0u64);
+    let mut acked = 0usize;
+    let mut first_unacked: Option<&WRec> = None;
+    for x in recs.iter() {
+        // an acknowledgement counts when it was on the wire before the verdict was read and within the worker timeout
+        match x.sent.iter().filter(|(t, s, st)| *st == ResponseStatus::Ok as i32 && *s < final_seq && *t <= t_send + timeout_ns + 200 * MS).map(|(t, s, _)| (*s, *t)).min() {
+            Some(a) => { acked += 1; if a.0 > last.0 { last = a; } }
+            None => { if first_unacked.is_none() { first_unacked = Some(x); } }
+        }
+    }
+    if acked >= r.verb.expected_requests_per_worker() && first_unacked.is_none() { return WClass::Acked(last.0, last.1); }
+    let name = match first_unacked {
+        // answered, but only after the worker timeout had elapsed (and before the verdict was read)
+        Some(x) if x.sent.iter().any(|(_, s, st)| *st == ResponseStatus::Ok as i32 && *s < final_seq) => "late_ack".into(),
+        Some(x) if ["silent", "late", "stalled", "closed"].contains(&x.beh.as_str()) => x.beh.clone(),
+        _ if wo.killed => "killed_by_main".into(),
+        _ if closed_before_final => "closed".into(),
+        _ if wo.stalled_since.is_some() => "stalled".into(),
+        Some(x) => format!("{}_not_yet_sent", x.beh),
+        None => format!("{}_incomplete", assigned.name()),
+    };
+    WClass::Unacked(name)
+}
+
+/// Why does this worker keep a request from ever completing (it owes an answer of any status)?
+fn hang_cause(r: &ReqPlan, wo: &WorkerObs, ro: &ReqObs) -> Option<String> {
+    let tagless = r.verb.tagless_worker_verb();
+    let recs: Vec<&WRec> = wo.recs.iter().filter(|x| x.beh != "end_ok" && match tagless { Some(v) => x.verb == v && x.tags.is_empty(), None => x.tags.contains(&r.n) }).collect();
+    let state = |fallback: &str| -> String {
+        if wo.killed { "killed_by_main".into() } else if wo.t_closed.is_some() { "closed".into() } else if wo.stalled_since.is_some() { "stalled".into() } else { fallback.into() }
+    };
+    if recs.is_empty() {
+        if let Some(s) = wo.seq_closed { if s < ro.seq_send.unwrap_or(0) { return Some("closed_earlier".into()); } }
+        return Some(state("not_dispatched"));
+    }
+    let unanswered: Vec<&&WRec> = recs.iter().filter(|x| !x.sent.iter().any(|(_, _, st)| *st != ResponseStatus::Processing as i32)).collect();
+    if unanswered.is_empty() && recs.len() >= r.verb.expected_requests_per_worker() { return None; }
+    match unanswered.first() {
+        Some(x) if ["silent", "late", "stalled", "closed"].contains(&x.beh.as_str()) => Some(x.beh.clone()),
+        _ => Some(state("pending")),
+    }
+}
+
+/// coarse plan-level trigger used in violation keys
+fn coarse(name: &str) -> &'static str {
+    match name {
+        "failure" => "failure",
+        "silent" | "late" | "stalled" => "silent",
+        "closed" | "killed_by_main" => "closed",
+        "not_dispatched" => "not_dispatched",
+        "late_ack" => "late_ack",
+        "ok" | "processing_ok" | "slow_ok" | "close_after_ok" | "duplicate_ok" | "unknown_id_then_ok" => "ok",
+        _ => "pending",
+    }
+}
+fn key_family(fam: &'static str) -> &'static str { match fam { "query_clusters" | "QueryMetrics" => "query", f => f } }
+
+fn blame_rank(name: &str) -> u32 {
+    match name { "closed" => 0, "killed_by_main" => 1, "closed_earlier" => 2, "stalled" => 3, "silent" => 4, "late" => 5, "failure" => 6, "not_dispatched" => 7, _ => 8 }
+}
+
+pub fn oracle(p: &HubPlan, o: &Outcome) -> (Vec<Violation>, BTreeMap<String, u64>) {
+    let mut v: Vec<Violation> = Vec::new();
+    let mut probes: BTreeMap<String, u64> = BTreeMap::new();
+    let mut bump = |k: &str| { *probes.entry(k.to_string()).or_insert(0) += 1; };
+    let timeout_ns = p.knobs.worker_timeout as u64 * SEC;
+    if let Some(pn) = &o.end.panicked { v.push(Violation::new("panic", "hub", pn.clone())); }
+    if !o.end.returned && o.end.panicked.is_none() { v.push(Violation::new("no_exit", "run_did_not_return", format!("aborted={:?}", o.end.aborted))); }
+    if o.ctl.forced { v.push(Violation::new("no_exit", "hard_stop_ignored", "the hub did not leave run() after a HardStop from a fresh client; it had to be forced".to_string())); }
+    // earliest stop request of the plan (sequence number of its send)
+    let mut stop_seq: Option<u64> = None;
+    for (ci, c) in p.clients.iter().enumerate() {
+        for (ri, r) in c.requests.iter().enumerate() {
+            if r.verb.is_stop() { if let Some(s) = o.clients[ci].reqs[ri].seq_send { stop_seq = Some(stop_seq.map_or(s, |x: u64| x.min(s))); } }
+        }
+    }
+    for (ci, c) in p.clients.iter().enumerate() {
+        let co = &o.clients[ci];
+        if let Some(g) = &co.garbage { v.push(Violation::new("malformed_response", "client", g.clone())); }
+        let stray_finals = co.stray.iter().filter(|r| r.status != ResponseStatus::Processing as i32).count();
+        if stray_finals > 0 && !(c.pipelined && c.requests.len() > 1) { v.push(Violation::new("two_final_answers", "unsolicited", format!("client {ci} received {stray_finals} final answer(s) while no request was outstanding"))); }
+        if c.pipelined && c.requests.len() > 1 {
+            // answers carry no request id: for a client that does not wait, only the count is checked
+            let sent = co.reqs.iter().filter(|r| r.t_send.is_some()).count();
+            let finals: usize = co.reqs.iter().map(|r| r.finals().len()).sum::<usize>() + stray_finals;
+            let stopping = stop_seq.is_some();
+            if finals < sent && !stopping {
+                v.push(Violation::new("no_final_answer", "trigger=pipelined_requests", format!("client {ci} sent {sent} requests without waiting for answers and received {finals} final answer(s) within {} s", (3 * timeout_ns + 5 * SEC) / SEC)));
+            }
+            if finals > sent { v.push(Violation::new("two_final_answers", "trigger=pipelined_requests", format!("client {ci} sent {sent} requests and received {finals} final answers"))); }
+            bump("pipelined_clients");
+            continue;
+        }
+        for (ri, r) in c.requests.iter().enumerate() {
+            let ro = &co.reqs[ri];
+            let fam = effective_family(c, ri);
+            if ro.t_send.is_none() { bump("requests_unsent"); continue; }
+            bump("requests_sent");
+            let t_send = ro.t_send.unwrap();
+            let finals = ro.finals();
+            let final_seq = finals.first().map_or(u64::MAX, |f| f.seq);
+            // a stop by another client was under way while this request was outstanding
+            let overlap = !r.verb.is_stop() && stop_seq.map_or(false, |s| s < final_seq);
+            let targets: Vec<usize> = match r.verb { Verb::UpgradeWorker { worker } => vec![worker as usize], _ => (0..p.workers.len()).collect() };
+            let classes: Vec<WClass> = if r.verb.scattered() && fam != "rejected_by_main" { targets.iter().map(|wi| classify(r, *wi, &o.workers[*wi], ro, final_seq, timeout_ns)).collect() } else { vec![] };
+            // a worker that had closed its channel before the request was sent
+            let earlier = classes.iter().any(|k| matches!(k, WClass::DeadBefore { .. }));
+            let killed = o.workers.iter().any(|w| w.killed && w.seq_closed.map_or(false, |s| s < final_seq));
+            let after = if earlier { ";after=worker_closed_earlier" } else if killed { ";after=worker_killed_by_main" } else { "" };
+            let mut bad: Vec<(usize, String)> = classes.iter().enumerate().filter_map(|(i, k)| match k { WClass::Failed(n) | WClass::Unacked(n) => Some((targets[i], n.clone())), _ => None }).collect();
+            bad.sort_by_key(|(_, n)| blame_rank(n));
+            let kfam = key_family(fam);
+            let worst_fine = bad.first().map(|(_, n)| n.clone()).unwrap_or_else(|| {
+                let mut names: Vec<&'static str> = if r.verb.scattered() { r.beh.iter().map(|b| b.name()).collect() } else { vec![] };
+                names.sort_by_key(|n| blame_rank(n));
+                names.first().copied().unwrap_or("ok").to_string()
+            });
+            let worst = if bad.is_empty() && earlier { "closed_earlier" } else { coarse(&worst_fine) };
+            let dup = r.beh.iter().any(|b| matches!(b, Beh::DupOk(_)));
+            let what = format!("client {ci} request #{} {}", r.n, r.verb.name());
+            // ---- echoed content
+            for resp in ro.responses.iter() {
+                // dumps of the main process state legitimately contain what other clients configured
+                let state_dump = matches!(r.verb, Verb::QueryClustersHashes | Verb::ListFrontends | Verb::ListListeners);
+                if !state_dump && resp.tags.iter().any(|t| *t != r.n) {
+                    v.push(Violation::new("answer_to_wrong_client", format!("verb={kfam}"), format!("{what}: response carries content of request(s) {:?}: status={} message={:?}", resp.tags, resp.status, resp.message)));
+                }
+            }
+            if finals.len() > 1 {
+                v.push(Violation::new("two_final_answers", format!("verb={kfam};behaviour={worst}"), format!("{what}: {} final answers: {:?}", finals.len(), finals.iter().map(|f| (f.status, f.message.clone())).collect::<Vec<_>>())));
+            }
+            let Some(fin) = finals.first() else {
+                if overlap { bump("no_final_during_stop"); continue; }
+                if co.eof_at.is_some() && co.eof_at <= co.t_done && co.io_err.is_none() && !o.ctl.forced {
+                    // the main process closed the connection instead of answering
+                    let volume: u64 = p.clients.iter().flat_map(|c| c.requests.iter()).map(|r| if let Verb::LoadState { entries } = r.verb { entries as u64 * 30 } else { 0 }).sum();
+                    let dump = matches!(r.verb, Verb::QueryClustersHashes | Verb::ListFrontends | Verb::ListListeners | Verb::SaveState | Verb::QueryMetrics { .. });
+                    let trig = if dump && volume > p.knobs.max_command_buffer_size / 2 { "trigger=answer_larger_than_max_command_buffer_size" } else { "trigger=connection_closed_by_main" };
+                    v.push(Violation::new("no_final_answer", format!("{trig};verb={kfam}"), format!("{what}: the main process closed the connection {} ms after the request without a final answer ({} PROCESSING)", (co.eof_at.unwrap() - t_send.min(co.eof_at.unwrap())) / MS, ro.responses.len())));
+                    continue;
+                }
+                let mut causes: Vec<String> = if classes.is_empty() { vec![] } else { targets.iter().filter_map(|wi| hang_cause(r, &o.workers[*wi], ro)).collect() };
+                causes.sort_by_key(|n| blame_rank(n));
+                // (a worker killed by the main process takes its unread acknowledgements with it)
+                let worst = match causes.first() { Some(c) if c == "closed_earlier" => "closed_earlier", Some(c) => coarse(c), None if killed => "closed", None => worst };
+                v.push(Violation::new("no_final_answer", format!("verb={kfam};behaviour={worst}"), format!("{what}: no final answer within {} s of virtual time (got {} PROCESSING); workers: {:?}", (3 * timeout_ns + 5 * SEC) / SEC, ro.responses.len(), classes)));
+                continue;
+            };
+            bump("requests_with_final");
+            let dt = fin.t - t_send;
+            let is_ok = fin.status == ResponseStatus::Ok as i32;
+            if dt + MS >= timeout_ns && r.verb.scattered() { bump("finals_at_or_after_timeout"); }
+            // ---- verdict
+            if fam == "rejected_by_main" {
+                if is_ok { v.push(Violation::new("ok_verdict_for_rejected_request", format!("verb={}", r.verb.name()), format!("{what}: {:?}", fin.message))); }
+                if dt > EPS_NS { v.push(Violation::new("stall_needed_timer", format!("verb={fam}"), format!("{what}: answered after {} ms", dt / MS))); }
+                continue;
+            }
+            if !r.verb.scattered() {
+                if !is_ok { v.push(Violation::new("failure_verdict_without_cause", format!("verb={}", r.verb.name()), format!("{what}: {:?}", fin.message))); }
+                if dt > EPS_NS && !overlap { v.push(Violation::new("stall_needed_timer", format!("verb={fam}"), format!("{what}: answered after {} ms", dt / MS))); }
+                if r.verb == Verb::SaveState && is_ok && !fin.tags.contains(&r.n) { v.push(Violation::new("answer_to_wrong_client", "verb=SaveState", format!("{what}: answer does not name the requested file: {:?}", fin.message))); }
+                if r.verb == Verb::ListWorkers && is_ok {
+                    if let Some(ContentType::Workers(ws)) = fin.content.as_ref().and_then(|c| c.content_type.as_ref()) {
+                        for wo in o.workers.iter() {
+                            let rep = ws.vec.iter().find(|x| x.id == wo.id).map(|x| x.run_state);
+                            let running = rep == Some(RunState::Running as i32);
+                            match wo.t_closed {
+                                Some(t) if t + EPS_NS < t_send && running => {
+                                    v.push(Violation::new("dead_worker_reported_running", "verb=ListWorkers", format!("{what}: worker {} closed its channel {} ms earlier and is listed as RUNNING", wo.id, (t_send - t) / MS)));
+                                }
+                                None if !running => v.push(Violation::new("live_worker_reported_stopped", "verb=ListWorkers", format!("{what}: worker {} never closed and is listed as {rep:?}", wo.id))),
+                                _ => {}
+                            }
+                        }
+                    }
+                }
+                continue;
+            }
+            bump(if is_ok { "scattered_verdict_ok" } else { "scattered_verdict_failure" });
+            if r.verb == Verb::Status {
+                // the verdict of Status is its content: a worker is RUNNING iff it acknowledged
+                if is_ok {
+                    if let Some(ContentType::Workers(ws)) = fin.content.as_ref().and_then(|c| c.content_type.as_ref()) {
+                        for (i, k) in classes.iter().enumerate() {
+                            let wi = targets[i];
+                            let rep = ws.vec.iter().find(|x| x.id == wi as u32).map(|x| x.run_state);
+                            let running = rep == Some(RunState::Running as i32);
+                            match k {
+                                WClass::Acked(..) if !running && dup => v.push(Violation::new("ok_verdict_before_all_workers_answered", "trigger=duplicate_answer", format!("{what}: worker {wi} acknowledged and is reported as {rep:?}; another worker had answered twice"))),
+                                WClass::Acked(..) if !running => v.push(Violation::new("status_misreports_worker", format!("reported=not_running;behaviour=ok{after}"), format!("{what}: worker {wi} acknowledged and is reported as {rep:?}"))),
+                                // (an acknowledgement that came after the timeout but before a late verdict is a consequence of the late verdict, reported as such)
+                                WClass::Failed(n) | WClass::Unacked(n) if running && n != "late_ack" => v.push(Violation::new("status_misreports_worker", format!("reported=running;behaviour={}", coarse(n)), format!("{what}: worker {wi} ({n}) is reported as RUNNING"))),
+                                WClass::DeadBefore { long_before: true } if running => v.push(Violation::new("status_misreports_worker", "reported=running;behaviour=dead", format!("{what}: dead worker {wi} is reported as RUNNING"))),
+                                _ => {}
+                            }
+                        }
+                    } else {
+                        v.push(Violation::new("status_misreports_worker", "no_content", format!("{what}: OK without worker list")));
+                    }
+                }
+            } else if is_ok {
+                for (wi, n) in bad.iter() {
+                    let dup_elsewhere = r.beh.iter().enumerate().any(|(j, b)| j != *wi && matches!(b, Beh::DupOk(_)));
+                    if dup_elsewhere || (dup && r.verb.expected_requests_per_worker() > 1) {
+                        v.push(Violation::new("ok_verdict_before_all_workers_answered", "trigger=duplicate_answer", format!("{what}: final OK {:?} after {} ms although worker {wi} ({n}) had not acknowledged, another worker had answered OK twice; workers: {:?}", fin.message, dt / MS, classes)));
+                    } else {
+                        v.push(Violation::new("ok_verdict_with_unacknowledged_worker", format!("verb={kfam};behaviour={}", coarse(n)), format!("{what}: final OK {:?} after {} ms although worker {wi} ({n}) had not acknowledged; workers: {:?}", fin.message, dt / MS, classes)));
+                    }
+                }
+                // tagged queries echo worker content: it must be there and be ours
+                if matches!(r.verb, Verb::QueryClusterById | Verb::QueryClustersByDomain | Verb::QueryMetrics { .. }) && classes.iter().any(|k| matches!(k, WClass::Acked(..))) && !fin.tags.contains(&r.n) {
+                    v.push(Violation::new("answer_to_wrong_client", format!("verb={kfam};missing_content"), format!("{what}: OK without the content the workers sent for it")));
+                }
+            } else {
+                let all_fine = classes.iter().all(|k| matches!(k, WClass::Acked(..) | WClass::DeadBefore { long_before: true }));
+                let dead_target = matches!(r.verb, Verb::UpgradeWorker { .. }) && earlier;
+                if all_fine && !overlap && !dead_target {
+                    v.push(Violation::new("failure_verdict_with_all_workers_ok", format!("verb={kfam}{after}"), format!("{what}: FAILURE {:?} although every live worker acknowledged; workers: {:?}", fin.message, classes)));
+                }
+            }
+            // ---- time
+            if dt > timeout_ns + EPS_NS && !overlap {
+                let tf = if matches!(fam, "LoadState" | "SoftStop") { fam } else { "with_default_timeout" };
+                v.push(Violation::new("late_final_answer", format!("verb={tf}"), format!("{what}: final answer after {} ms, worker_timeout is {} s", dt / MS, p.knobs.worker_timeout)));
+            }
+            if classes.iter().all(|k| matches!(k, WClass::Acked(..) | WClass::DeadBefore { .. })) && !overlap {
+                let last_ack = classes.iter().filter_map(|k| if let WClass::Acked(_, t) = k { Some(*t) } else { None }).max().unwrap_or(t_send).max(t_send);
+                if fin.t > last_ack + EPS_NS {
+                    v.push(Violation::new("stall_needed_timer", if !after.is_empty() { after[1..].to_string() } else { format!("verb={kfam}") }, format!("{what}: every worker had acknowledged at +{} ms, the final answer came at +{} ms", (last_ack - t_send) / MS, dt / MS)));
+                }
+            }
+        }
+    }
+    // ---- workers
+    for (wi, wo) in o.workers.iter().enumerate() {
+        if let Some(g) = &wo.garbage { v.push(Violation::new("garbage_to_worker", "frame", format!("worker {wi}: {g}"))); }
+        for x in &wo.recs { bump(&format!("beh_{}", x.beh)); }
+        if wo.killed {
+            bump("workers_killed_by_main");
+            let faulted = p.clients.iter().flat_map(|c| c.requests.iter()).any(|r| matches!(r.beh.get(wi), Some(Beh::CloseBefore | Beh::CloseAfter(_) | Beh::Stall)));
+            if !faulted {
+                // plan-level trigger: the state files of the plan scatter more bytes per worker than the channel may buffer (~50 bytes per entry)
+                let volume: u64 = p.clients.iter().flat_map(|c| c.requests.iter()).map(|r| if let Verb::LoadState { entries } = r.verb { entries as u64 * 50 } else { 0 }).sum();
+                let trig = if volume > p.knobs.max_command_buffer_size { "trigger=scatter_larger_than_max_command_buffer_size" } else { "trigger=none" };
+                v.push(Violation::new("healthy_worker_killed", trig, format!("worker {wi} never closed its channel nor stopped reading and was killed (SIGKILL) by the main process after reading {} bytes", wo.bytes_in)));
+            }
+        }
+        if wo.stalled_since.is_some() { bump("workers_stalled"); }
+        // the main process notices a worker whose channel closed: it marks it stopped and kills the pid
+        if let (Some(t), false) = (wo.t_closed, wo.killed) {
+            bump("workers_closed_by_plan");
+            let stop_before = stop_seq.map_or(false, |s| s < wo.seq_closed.unwrap_or(0)) || p.clients.iter().enumerate().any(|(ci, c)| c.requests.iter().enumerate().any(|(ri, r)| r.verb.is_stop() && o.clients[ci].reqs[ri].t_send.map_or(false, |ts| ts < t + EPS_NS)));
+            if o.end.returned && o.end.t_return > t + EPS_NS && !stop_before && !o.end.kills.iter().any(|(pid, _)| *pid == fake_pid(wo.id)) {
+                let trig = if wo.unread_at_close > 0 { "closed_with_unread_request" } else { "closed" };
+                v.push(Violation::new("dead_worker_not_detected", format!("trigger={trig}"), format!("worker {wi} closed its channel at {:.6} with {} unread byte(s); the main process ran until {:.6} and never marked it stopped (no kill of pid {})", t as f64 / 1e9, wo.unread_at_close, o.end.t_return as f64 / 1e9, fake_pid(wo.id))));
+            }
+        }
+    }
+    // ---- liveness after the faults: a fresh client is served
+    let plan_stop = stop_seq.is_some();
+    if o.ctl.probe_connected && !plan_stop && o.end.panicked.is_none() {
+        match o.ctl.probe_final {
+            Some((st, dt)) if st == ResponseStatus::Ok as i32 && dt <= timeout_ns + EPS_NS => { bump("probe_served"); }
+            Some((st, dt)) => v.push(Violation::new("probe_not_served", "status", format!("fresh client after the plan: Status answered {st} after {} ms", dt / MS))),
+            None => v.push(Violation::new("probe_not_served", "no_answer", "fresh client after the plan: Status got no final answer".to_string())),
+        }
+    }
+    if o.ctl.waited_out { bump("controller_waited_out"); }
+    probes.insert("kills".into(), o.end.kills.len() as u64);
+    v.dedup_by(|a, b| a.class == b.class && a.key == b.key);
+    (v, probes)
+}
+
+// ------------------------------------------------------------------------------------ property
+
+fn shrink_plan(p: &HubPlan) -> Vec<HubPlan> {
+    let mut out = Vec::new();
+    if p.clients.len() > 1 { for i in 0..p.clients.len() { let mut q = p.clone(); q.clients.remove(i); out.push(q); } }
+    for i in 0..p.clients.len() {
+        if p.clients[i].requests.len() > 1 { for j in 0..p.clients[i].requests.len() { let mut q = p.clone(); q.clients[i].requests.remove(j); out.push(q); } }
+    }
+    if p.workers.len() > 1 {
+        for wi in 0..p.workers.len() {
+            // UpgradeWorker names a worker id: keep plans consistent by only dropping the last worker when one is named
+            let named = p.clients.iter().flat_map(|c| c.requests.iter()).any(|r| matches!(r.verb, Verb::UpgradeWorker { .. }));
+            if named && wi != p.workers.len() - 1 { continue; }
+            if p.clients.iter().flat_map(|c| c.requests.iter()).any(|r| matches!(r.verb, Verb::UpgradeWorker { worker } if worker as usize == wi)) { continue; }
+            let mut q = p.clone();
+            q.workers.remove(wi);
+            for c in q.clients.iter_mut() { for r in c.requests.iter_mut() { if wi < r.beh.len() { r.beh.remove(wi); } } }
+            out.push(q);
+        }
+    }
+    for i in 0..p.clients.len() {
+        for j in 0..p.clients[i].requests.len() {
+            for wi in 0..p.clients[i].requests[j].beh.len() {
+                let b = &p.clients[i].requests[j].beh[wi];
+                if *b != Beh::Ok && !matches!(p.clients[i].requests[j].verb, Verb::UpgradeWorker { worker } if worker as usize == wi) {
+                    let mut q = p.clone(); q.clients[i].requests[j].beh[wi] = Beh::Ok; out.push(q);
+                }
+            }
+            if let Verb::LoadState { entries } = p.clients[i].requests[j].verb { if entries > 1 { let mut q = p.clone(); q.clients[i].requests[j].verb = Verb::LoadState { entries: entries / 2 }; out.push(q); } }
+        }
+        let c = &p.clients[i];
+        if c.pipelined { let mut q = p.clone(); q.clients[i].pipelined = false; out.push(q); }
+        if c.start_ns != 0 || c.think_ns != 0 || c.wq != Quantum::All || c.stop_waits { let mut q = p.clone(); q.clients[i].start_ns = 0; q.clients[i].think_ns = 0; q.clients[i].wq = Quantum::All; q.clients[i].stop_waits = false; out.push(q); }
+    }
+    if p.workers.iter().any(|q| *q != Quantum::All) { let mut q = p.clone(); for x in q.workers.iter_mut() { *x = Quantum::All; } out.push(q); }
+    if p.knobs != HubKnobs::default() {
+        let mut q = p.clone(); q.knobs = HubKnobs::default();
+        // delays were drawn relative to the timeout
+        if q.knobs.worker_timeout == p.knobs.worker_timeout { out.push(q); } else { let mut q2 = p.clone(); q2.knobs = HubKnobs { worker_timeout: p.knobs.worker_timeout, ..HubKnobs::default() }; out.push(q2); }
+    }
+    let d = SchedCfg::default();
+    if p.sched.ev_truncate_pm != 0 || p.sched.ev_permute_pm != 0 || p.sched.actor_burst != d.actor_burst { let mut q = p.clone(); q.sched = d; out.push(q); }
+    out
+}
+
+fn report(p: &HubPlan, o: &Outcome) -> RunReport {
+    let (violations, mut probes) = oracle(p, o);
+    let mut th = TraceHash::new();
+    th.mix(o.trace_hash);
+    for c in &o.clients {
+        for r in &c.reqs { th.mix(r.t_send.unwrap_or(0)); for x in &r.responses { th.mix(x.t); th.mix(x.status as u64); th.mix(x.seq); } }
+        th.mix(c.stray.len() as u64);
+    }
+    for w in &o.workers { for x in &w.recs { th.mix(x.t_recv); th.mix(x.seq_recv); for s in &x.sent { th.mix(s.0); th.mix(s.1); th.mix(s.2 as u64); } } th.mix(w.t_closed.unwrap_or(0)); th.mix(w.killed as u64); }
+    th.mix(o.end.returned as u64);
+    th.mix(o.end.t_return);
+    let finals: usize = o.clients.iter().flat_map(|c| c.reqs.iter()).filter(|r| !r.finals().is_empty()).count();
+    probes.insert("final_answers".into(), finals as u64);
+    let mut rep = RunReport { seed: p.seed, family: p.family.clone(), violations, trace_hash: th.0, nontrivial: finals > 0 && o.end.returned, stats: o.stats.clone(), probes, summary: summarize(p), ..Default::default() };
+    if let Some(e) = &o.end.boot_error { rep.harness_error = Some(format!("hub boot failed: {e}")); }
+    if let Some(a) = &o.end.aborted { if !o.ctl.forced { rep.harness_error = Some(format!("simulation aborted: {a}")); } }
+    if !o.leaked_fds.is_empty() { rep.harness_error = Some(format!("descriptors leaked by the run: {:?}", o.leaked_fds)); }
+    rep
+}
+
 impl Property for C09 {
     fn id(&self) -> &'static str { "C09" }
-    fn runs(&self, _tier: Tier) -> u64 { 0 }
-    fn gen_plan(&self, _seed: u64, _tier: Tier) -> Value { Value::Null }
-    fn run_plan(&self, _plan: &Value) -> RunReport { RunReport { harness_error: Some("not implemented".into()), ..Default::default() } }
-    fn descr(&self) -> Descr { Descr { level: "exploration", rule: "", assumptions: vec![], real: vec![], stub: vec![], not_covered: vec![] } }
+    fn runs(&self, tier: Tier) -> u64 { match tier { Tier::Quick => 16_000, Tier::Thorough => 600_000 } }
+    fn gen_plan(&self, seed: u64, tier: Tier) -> Value { serde_json::to_value(generate(seed, tier)).unwrap() }
+    fn enumerated(&self, _tier: Tier) -> Vec<Value> { enumerate_plans().into_iter().enumerate().map(|(i, mut p)| { p.seed = 9_000_000 + i as u64; serde_json::to_value(p).unwrap() }).collect() }
+    fn run_plan(&self, plan: &Value) -> RunReport {
+        let p: HubPlan = match serde_json::from_value(plan.clone()) { Ok(p) => p, Err(e) => return RunReport { harness_error: Some(format!("bad plan: {e}")), ..Default::default() } };
+        let o = run(&p, false);
+        report(&p, &o)
+    }
+    fn shrink(&self, plan: &Value) -> Vec<Value> {
+        let Ok(p) = serde_json::from_value::<HubPlan>(plan.clone()) else { return vec![] };
+        shrink_plan(&p).into_iter().map(|p| serde_json::to_value(p).unwrap()).collect()
+    }
+    fn debug_plan(&self, plan: &Value) -> String {
+        let p: HubPlan = serde_json::from_value(plan.clone()).unwrap();
+        let o = run(&p, true);
+        let mut s = format!("{}\n", summarize(&p));
+        for l in &o.log { s += l; s.push('\n'); }
+        for (ci, c) in o.clients.iter().enumerate() {
+            s += &format!("client {ci}: connect_error={:?} eof_at={:?} done={:?} stray={}\n", c.connect_error, c.eof_at, c.t_done, c.stray.len());
+            for (ri, r) in c.reqs.iter().enumerate() {
+                s += &format!("  req {ri} t_send={:?} seq={:?} gave_up={}\n", r.t_send, r.seq_send, r.gave_up);
+                for x in &r.responses { s += &format!("    [{:.6} #{}] status={} tags={:?} {:?} content={}\n", x.t as f64 / 1e9, x.seq, x.status, x.tags, x.message, format!("{:?}", x.content).chars().take(300).collect::<String>()); }
+            }
+        }
+        for w in &o.workers {
+            s += &format!("worker {}: closed={:?} killed={} stalled={:?} eof={} bytes_in={}\n", w.id, w.t_closed, w.killed, w.stalled_since, w.eof, w.bytes_in);
+            for x in &w.recs { s += &format!("  [{:.6} #{}] {} {} tags={:?} entry={:?} beh={} sent={:?}\n", x.t_recv as f64 / 1e9, x.seq_recv, x.hub_id, x.verb, x.tags, x.entry, x.beh, x.sent); }
+        }
+        s += &format!("controller: {:?}\nend: {:?}\nleaked fds: {:?}\n", o.ctl, o.end, o.leaked_fds);
+        let (v, pr) = oracle(&p, &o);
+        for x in v { s += &format!("VIOLATION {} [{}] {}\n", x.class, x.key, x.detail); }
+        s += &format!("probes: {pr:?}\n");
+        s
+    }
+    fn descr(&self) -> Descr {
+        Descr {
+            level: "exploration",
+            rule: "enumerated (verb family x worker behaviour x 1-2 workers) plus seeded plans (1-4 scripted workers, 1-4 concurrent CLI clients, 1-4 requests each, per-(request,worker) behaviour, worker_timeout, channel buffer sizes, write quanta, epoll truncation/permutation); a run is non-trivial when >=1 client request received a final answer and run() returned; distinct = distinct decision/observation trace hashes",
+            assumptions: vec!["scripted workers stand in for worker processes (kill() is intercepted and closes the scripted worker's channel)", "virtual clock: worker_timeout elapses in zero wall time", "release semantics (debug assertions off)", "x86-64 Linux"],
+            real: vec!["sozu::command::server::CommandHub::run (scatter/gather, tasks, timeouts, client and worker sessions)", "sozu::command::requests (all verbs used)", "sozu_command_lib Channel / ConfigState", "mio", "Linux epoll + AF_UNIX"],
+            stub: vec!["worker processes (scripted actors on the real channel)", "CLI clients (scripted actors on the real command socket)", "clock", "entropy", "kill(2)"],
+            not_covered: vec!["UpgradeMain and the second phase of UpgradeWorker (need fork/exec; the worker side of the SCM socket is closed so the master refuses the upgrade before forking)", "ReloadConfiguration / load_static_config (Config::load_from_path panics on unreadable files; same Timeout::None path as LoadState)", "event subscribers", "worker_automatic_restart (off: it forks)", "Logging (mutates the process environment)", "short writes / EAGAIN injection on the hub's unix sockets (the hooks only buggify simulated TCP sockets)"],
+        }
+    }
 }
